@@ -7,6 +7,7 @@ import (
 	"fmt"
 	"go/format"
 	"os"
+	"os/exec"
 	"path/filepath"
 	"sort"
 	"strings"
@@ -191,6 +192,17 @@ func genC09(c *Ctx) {
 	}
 
 	c09Builtin(c)
+	tools := c09Tools()
+	defer func() {
+		for _, r := range <-tools {
+			in := sx.L(sx.A("tool"), sx.Str(r.tool))
+			if r.fail != "" {
+				c.Fail("c09.save", in, "c09-tool-"+strings.ReplaceAll(r.tool, "/", "-"), "command-line emitter "+r.tool+": "+r.fail)
+			} else {
+				c.Note("c09.save", "tool|"+r.tool+"|over-longer-file-equals-fresh-directory", in)
+			}
+		}
+	}()
 
 	// 2. generators (three runs each), scratch module, build
 	for _, p := range s.progs {
@@ -228,6 +240,15 @@ func genC09(c *Ctx) {
 			if a.K != sx.KBytes || string(a.Bytes) != p.body {
 				p.nondet, p.nondetHow = true, "a fresh process generates different output: "+trunc(a.String(), 120)
 			}
+		}
+		if p.saveErr != "" {
+			if p.explore != "" {
+				observe(p, "file-save-differs")
+			} else {
+				c.Fail("c09.save", in, "c09-tlb-file-save", "tlb/parser.File.Save: the file is not the rendering of the last schema alone: "+p.saveErr)
+			}
+		} else if p.kind == "tlb" && p.ok() && p.explore == "" {
+			c.Note("c09.save", "tlb|File.Save|"+p.saveHistory+"|equals-fresh-path-save-and-compiles", in)
 		}
 		if p.nondet {
 			if p.explore != "" {
@@ -754,4 +775,91 @@ func c09Builtin(c *Ctx) {
 		return
 	}
 	c.Note("c09.builtin", "tlb|integers.go-reproduced", mark)
+}
+
+// c09Tools: the three command-line emitters of the generators (the only other
+// places that write generated code to disk): liteclient/generator.go
+// (generated.go), tlb/generator.go (integers.go), tlb/generator-config.go
+// (config.go, through File.Save).  Each is run in a scratch module twice: into
+// an empty directory, and into a directory where a LONGER file of that name
+// already exists.  Oracle: both runs leave the same file.  Started at the
+// beginning of the run, collected at the end (overlaps everything else).
+type c09ToolResult struct{ tool, fail string }
+
+func c09Tools() chan []c09ToolResult {
+	ch := make(chan []c09ToolResult, 1)
+	go func() {
+		repo := c09Repo()
+		tools := []struct{ dir, src, input, output string }{
+			{"liteclient", "generator.go", "lite_api.tl", "generated.go"},
+			{"tlb", "generator.go", "", "integers.go"},
+			{"tlb", "generator-config.go", "config.tlb", "config.go"},
+		}
+		var mu sync.Mutex
+		var out []c09ToolResult
+		var wg sync.WaitGroup
+		for _, t := range tools {
+			wg.Add(1)
+			go func(dir, src, input, output string) {
+				defer wg.Done()
+				name := dir + "/" + src
+				res := c09ToolResult{tool: name}
+				defer func() { mu.Lock(); out = append(out, res); mu.Unlock() }()
+				run := func(prefill bool) ([]byte, string) {
+					tmp, err := os.MkdirTemp("", "c09tool")
+					if err != nil {
+						return nil, "no scratch directory"
+					}
+					defer os.RemoveAll(tmp)
+					cp := func(from, to string) bool {
+						b, err := os.ReadFile(from)
+						return err == nil && os.WriteFile(to, b, 0o644) == nil
+					}
+					gomod := "module c09tool\n\ngo 1.19\n\nrequire github.com/tonkeeper/tongo v0.0.0\n\nreplace github.com/tonkeeper/tongo => " + repo + "\n"
+					if os.WriteFile(filepath.Join(tmp, "go.mod"), []byte(gomod), 0o644) != nil ||
+						!cp(filepath.Join(repo, "go.sum"), filepath.Join(tmp, "go.sum")) ||
+						!cp(filepath.Join(repo, dir, src), filepath.Join(tmp, src)) ||
+						(input != "" && !cp(filepath.Join(repo, dir, input), filepath.Join(tmp, input))) {
+						return nil, "tool sources not found"
+					}
+					if prefill {
+						old, _ := os.ReadFile(filepath.Join(repo, dir, output))
+						old = append(old, []byte(strings.Repeat("\n// left over from an earlier, longer output\ntype C09Stale struct{}\n", 200))...)
+						if os.WriteFile(filepath.Join(tmp, output), old, 0o644) != nil {
+							return nil, "cannot pre-fill the output"
+						}
+					}
+					cmd := exec.Command("go", "run", src)
+					cmd.Dir = tmp
+					cmd.Env = c09GoEnv()
+					if o, err := cmd.CombinedOutput(); err != nil {
+						return nil, "go run " + src + " failed: " + trunc(string(o), 300)
+					}
+					b, err := os.ReadFile(filepath.Join(tmp, output))
+					if err != nil {
+						return nil, "the tool wrote no " + output
+					}
+					return b, ""
+				}
+				var a, b []byte
+				var ea, eb string
+				var w2 sync.WaitGroup
+				w2.Add(2)
+				go func() { defer w2.Done(); a, ea = run(false) }()
+				go func() { defer w2.Done(); b, eb = run(true) }()
+				w2.Wait()
+				switch {
+				case ea != "":
+					res.fail = ea
+				case eb != "":
+					res.fail = eb
+				case !bytes.Equal(a, b):
+					res.fail = fmt.Sprintf("run over an existing longer %s leaves %d bytes, run into an empty directory %d bytes", output, len(b), len(a))
+				}
+			}(t.dir, t.src, t.input, t.output)
+		}
+		wg.Wait()
+		ch <- out
+	}()
+	return ch
 }
